@@ -9,6 +9,7 @@ CONSTANTS
   BinOps = {"+", "-", "*", "/", "%", "^", "atan2", "==", "!=", "<", "<=", ">", ">=", "</", ">/", "and", "or", "unless"}
   BinMods = {"none", "none", "none", "bool", "on_a", "on_e", "ign_ab", "ign_e", "bool_on_u", "on_gl", "on_gl_same", "ign_gr", "ign_e_gl", "fill0", "fill_l", "fill_lr", "fill_rl", "gl_fill"}
   Offsets <- OffAll
+  BadOffsets = {"NaN", "Inf", "1e10"}
   AtMods <- AtAll
   Exts = {"anchored", "smoothed"}
   Ranges = {300000, 1500}
